@@ -290,3 +290,58 @@ def shrink_program(pr):
             ms = list(pr["mixins"])
             ms[k] = v
             yield {"mixins": ms, "main": pr["main"]}
+
+
+# ---------------------------------------------------------------------------
+# C20: rule trees mixing declarations, nested rules, bubbling at-rules, @at-root, @keyframes
+C20_AT = [("supports", "(a: b)"), ("foo", "bar"), ("foo", None), ("-moz-document", "u"), ("layer", "l")]
+
+
+class G20:
+    def __init__(self, rng, depth=4, order_safe=False):
+        self.rng, self.n, self.depth, self.order_safe = rng, 0, depth, order_safe
+        self.g = G(rng)
+
+    def decl(self):
+        self.n += 1
+        return ["d", f"p{self.n:03d}", f"v{self.n:03d}"]
+
+    def body(self, d, has_sel, has_parent):
+        rng = self.rng
+        out = []
+        k = rng.randint(1, 4)
+        seen_block = False
+        for _ in range(k):
+            s = self.stmt(d, has_sel, has_parent, allow_decl=not (self.order_safe and seen_block))
+            if s[0] != "d":
+                seen_block = True
+            out.append(s)
+        return out
+
+    def stmt(self, d, has_sel, has_parent, allow_decl=True):
+        rng = self.rng
+        k = rng.random()
+        if d <= 0 or (has_sel and allow_decl and k < 0.4):
+            if has_sel and allow_decl:
+                return self.decl()
+            return ["r", self.g.sels(has_parent), [self.decl()]]
+        if k < 0.6:
+            return ["r", self.g.sels(has_parent), self.body(d - 1, True, True)]
+        if k < 0.72:
+            return ["m", rng.choice(MEDIA), self.body(d - 1, has_sel, has_parent)]
+        if k < 0.84:
+            name, args = rng.choice(C20_AT)
+            return ["a", name, args, self.body(d - 1, has_sel, has_parent)]
+        if k < 0.9:
+            kf = [["r", [["p", rng.choice(["from", "to", "50%"])]], [self.decl()]] for _ in range(rng.randint(1, 2))]
+            return ["a", "keyframes", rng.choice(["k", "spin"]), kf]
+        if k < 0.95:
+            return ["ar", None, [["r", self.g.sels(has_parent), self.body(d - 1, True, True)] for _ in range(rng.randint(1, 2))]]
+        return ["ar", self.g.sels(has_parent), self.body(d - 1, True, True)]
+
+    def program(self):
+        return {"mixins": [], "main": [self.stmt(self.depth, False, False) for _ in range(self.rng.randint(1, 3))]}
+
+
+def gen_c20(rng, **kw):
+    return G20(rng, **kw).program()
